@@ -238,6 +238,37 @@ class _Stmt(ast.NodeTransformer):
                 out.append(ast.copy_location(ast.Expr(value=ast.copy_location(call, s)), s))
                 i += 1
                 continue
+            # if C: x op= A  else: x op= B   ->   x op= A if C else B
+            if isinstance(s, ast.If) and not getattr(s, "_elif", False) and len(s.body) == 1 and len(s.orelse) == 1 and isinstance(s.body[0], ast.AugAssign) \
+                    and isinstance(s.orelse[0], ast.AugAssign) and type(s.body[0].op) is type(s.orelse[0].op) and ast.dump(s.body[0].target) == ast.dump(s.orelse[0].target):
+                val = ast.copy_location(ast.IfExp(test=s.test, body=s.body[0].value, orelse=s.orelse[0].value), s)
+                out.append(ast.copy_location(ast.AugAssign(target=s.body[0].target, op=s.body[0].op, value=val), s))
+                i += 1
+                continue
+            # if A: return A ; return B   ->   return A or B      (A a plain name: evaluating it twice is free)
+            if isinstance(s, ast.If) and not s.orelse and len(s.body) == 1 and isinstance(s.body[0], ast.Return) and isinstance(s.test, ast.Name) \
+                    and isinstance(s.body[0].value, ast.Name) and s.body[0].value.id == s.test.id and isinstance(nxt, ast.Return) and nxt.value is not None and i + 2 == len(stmts):
+                vals = [s.test] + (nxt.value.values if isinstance(nxt.value, ast.BoolOp) and isinstance(nxt.value.op, ast.Or) else [nxt.value])
+                out.append(ast.copy_location(ast.Return(value=ast.copy_location(ast.BoolOp(op=ast.Or(), values=vals), s)), s))
+                i += 2
+                continue
+            # flag = <boolean expression> ; if <... flag ...>:   (flag used nowhere else)   ->   the expression inlined into the test
+            # args = <literal> ; f(..., args, ...)               (args used nowhere else)   ->   the literal inlined into the call
+            if isinstance(s, ast.Assign) and len(s.targets) == 1 and isinstance(s.targets[0], ast.Name) and nxt is not None and self._fn_uses.get(s.targets[0].id) == 2:
+                nm = s.targets[0].id
+                head = None
+                if _bool_typed(s.value) and isinstance(nxt, ast.If):
+                    head = "test"
+                elif isinstance(s.value, (ast.Constant, ast.Tuple)) and all(isinstance(e, ast.Constant) for e in getattr(s.value, "elts", [])) \
+                        and isinstance(nxt, ast.Expr) and isinstance(nxt.value, ast.Call):
+                    head = "value"
+                if head and sum(1 for x in ast.walk(getattr(nxt, head)) if isinstance(x, ast.Name) and x.id == nm and isinstance(x.ctx, ast.Load)) == 1:
+                    new_nxt = copy.copy(nxt)
+                    setattr(new_nxt, head, _ArgSubst({nm: s.value}).visit(copy.deepcopy(getattr(nxt, head))))
+                    if getattr(nxt, "_elif", False):
+                        new_nxt._elif = True
+                    stmts = stmts[:i] + [ast.fix_missing_locations(new_nxt)] + stmts[i + 2:]
+                    continue
             # if A: (if B: X)   ->   if A and B: X      (no else on either)
             if isinstance(s, ast.If) and not s.orelse and len(s.body) == 1 and isinstance(s.body[0], ast.If) and not s.body[0].orelse:
                 inner = s.body[0]
@@ -278,13 +309,22 @@ class _Stmt(ast.NodeTransformer):
         return out
 
     _depth = 0
+    _fn_uses: dict = {}
 
     def visit_FunctionDef(self, node):
         self._depth += 1
+        saved = self._fn_uses
+        if self._depth == 1 or True:
+            uses: dict = {}
+            for x in ast.walk(node):
+                if isinstance(x, ast.Name):
+                    uses[x.id] = uses.get(x.id, 0) + 1
+            self._fn_uses = uses
         try:
             return self.generic_visit(node)
         finally:
             self._depth -= 1
+            self._fn_uses = saved
 
     visit_AsyncFunctionDef = visit_FunctionDef
 
